@@ -184,6 +184,8 @@ IDN2003_HOSTS = ["a_b.é", "☃.net", "A_b.é", "😀.com", "_dmarc.é.com"]
 IPV4_HOSTS = ["127.0.0.1", "0.0.0.0", "255.255.255.255", "1.2.3.4", "10.0.0.1"]
 IPV6_HOSTS = ["::1", "::", "2001:db8::1", "2001:DB8:0:0:0:0:0:1", "fe80::1%eth0", "::ffff:1.2.3.4", "0:0:0:0:0:0:0:1", "2001:0db8:0000:0000:0000:ff00:0042:8329", "FE80::A%25eth1", "1:2:3:4:5:6:7:8"]
 IPVFUTURE_HOSTS = ["v1.x", "vF.a:b", "v1a.~"]
+# bracketed texts that are NOT hosts (a bracket inside the brackets, a doubled bracket): URL texts only, never a "valid host" pool
+BRACKET_ODD_HOSTS = ["[v1.a[b]", "[v1.x:y[]", "[fe80::1%eth[]", "[[::1]", "[v1.[a]", "[::1]]", "[a@[::1]"]
 
 
 def long_urls():
@@ -235,6 +237,8 @@ class URLGen:
             return "reg", r.choice(REG_HOSTS)
         if k < 0.96:
             return "empty", ""
+        if k < 0.975:
+            return "hostile", r.choice(BRACKET_ODD_HOSTS)
         return "hostile", self.tg.text(3)[0]
 
     def port(self):
